@@ -548,6 +548,23 @@ Proof.
     replace (- (1)) with (-1) by ring. ring.
 Qed.
 
+(* ------------------------------------------------------------------ histogramRestraint *)
+Definition hist_ok (sigma : R) (vs : list nat) (ws : list (@cvar R)) : Prop := sigma <> 0 /\ forall v, In v vs -> (v < length ws)%nat.
+
+Lemma hist_gauss_derive norm sigma xg x0 : sigma <> 0 ->
+  is_derive (fun x => hist_gauss Rops norm sigma xg x) x0 (hist_gauss Rops norm sigma xg x0 * ((xg - x0) / (sigma * sigma))).
+Proof.
+  intros Hs. unfold hist_gauss, mone, one, tw, ofnat. cbn [nmul nsub ndiv nneg nexp n1 nofZ Rops]. change (IZR (Z.of_nat 2)) with 2.
+  auto_derive; [exact I|].
+  replace (exp (- (1) * (xg + - x0) * (xg + - x0) * / (2 * sigma * sigma))) with (exp (- (1) * (xg - x0) * (xg - x0) / (2 * sigma * sigma)))
+    by (f_equal; field; exact Hs).
+  field. exact Hs.
+Qed.
+
+Lemma is_derive_minus_const (f : R -> R) x d r : is_derive f x d -> is_derive (fun t => f t - r) x d.
+Proof. intros H. evar_last; [apply @is_derive_minus; [exact H|apply @is_derive_const]|]. exact (Rminus_0_r d). Qed.
+
+
 (* ------------------------------------------------------------------ atom groups *)
 Definition rnat (n : nat) : R := IZR (Z.of_nat n).
 
@@ -2356,6 +2373,191 @@ Proof.
         rewrite Epow. unfold dS. change (exp (-1 / ex * ln Sb)) with x0. field. repeat split; lra.
 Qed.
 
+(* ------------------------------------------------------------------ rmsd with its optimal rotation: the envelope argument *)
+Notation Q4 := (@quat R).
+Definition qn2 (q : Q4) : R := let '(q0, q1, q2, q3) := q in q0 * q0 + q1 * q1 + q2 * q2 + q3 * q3.
+Definition sqdev (q : Q4) (prs : list (V3 * V3)) : R := tsum Rops (map (v3norm2 Rops) (rdev Rops q prs)).
+(* what rotation::calc_optimal_rotation has to deliver (C02_eigen_decomposition_is_optimal shows that the eigenvector of the
+   largest eigenvalue of the overlap matrix does): a unit quaternion minimising the sum of squared deviations *)
+Definition qopt_ok (ref : list V3) (qopt : list (V3 * V3) -> Q4) : Prop :=
+  forall Y, let prs := combine Y (centred Rops ref) in
+            qn2 (qopt prs) = 1 /\ forall q', qn2 q' = 1 -> sqdev (qopt prs) prs <= sqdev q' prs.
+
+(* Fermat / envelope: a differentiable function that lies below a differentiable one and touches it has the same derivative *)
+Lemma envelope (F G : R -> R) t0 d : ex_derive F t0 -> (forall t, F t <= G t) -> F t0 = G t0 -> is_derive G t0 d -> is_derive F t0 d.
+Proof.
+  intros [dF HF] Hle Heq HG.
+  assert (HH : is_derive (fun t => G t - F t) t0 (d - dF)) by (apply @is_derive_minus; assumption).
+  assert (pr : derivable_pt (fun t => G t - F t) t0) by (exists (d - dF); apply is_derive_Reals; exact HH).
+  assert (E0 : derive_pt (fun t => G t - F t) t0 pr = 0).
+  { apply (deriv_minimum (fun t => G t - F t) (t0 - 1) (t0 + 1) t0 pr); [lra|lra|]. intros x _ _. rewrite Heq. specialize (Hle x). lra. }
+  assert (E1 : derive_pt (fun t => G t - F t) t0 pr = d - dF) by (apply derive_pt_eq_0; apply is_derive_Reals; exact HH).
+  replace d with dF by lra. exact HF.
+Qed.
+
+Lemma qrot_lin (q : Q4) (a b : V3) t : qrot Rops q (v3add Rops a (v3scale Rops t b)) = v3add Rops (qrot Rops q a) (v3scale Rops t (qrot Rops q b)).
+Proof.
+  destruct q as [[[q0 q1] q2] q3], a as [[ax ay] az], b as [[bx by_] bz].
+  unfold qrot, v3add, v3scale, tw, ofnat. cbn [nadd nsub nmul nofZ Rops]. change (IZR (Z.of_nat 2)) with 2. f_equal; [f_equal|]; ring.
+Qed.
+Lemma qrot_sub (q : Q4) (a b : V3) : qrot Rops q (v3sub Rops a b) = v3sub Rops (qrot Rops q a) (qrot Rops q b).
+Proof.
+  destruct q as [[[q0 q1] q2] q3], a as [[ax ay] az], b as [[bx by_] bz].
+  unfold qrot, v3sub, tw, ofnat. cbn [nadd nsub nmul nofZ Rops]. change (IZR (Z.of_nat 2)) with 2. f_equal; [f_equal|]; ring.
+Qed.
+Lemma qrot_zero (q : Q4) : qrot Rops q (vzero Rops) = vzero Rops.
+Proof.
+  destruct q as [[[q0 q1] q2] q3]. unfold qrot, vzero, zero, tw, ofnat. cbn [nadd nsub nmul nofZ n0 Rops]. f_equal; [f_equal|]; ring.
+Qed.
+(* the matrix of the conjugate quaternion is the transpose *)
+Lemma qrot_adj (q : Q4) (a b : V3) : v3dot Rops (qrot Rops (qconj Rops q) a) b = v3dot Rops a (qrot Rops q b).
+Proof.
+  destruct q as [[[q0 q1] q2] q3], a as [[ax ay] az], b as [[bx by_] bz].
+  unfold qrot, qconj, v3dot, tw, ofnat. cbn [nadd nsub nmul nneg nofZ Rops]. change (IZR (Z.of_nat 2)) with 2. ring.
+Qed.
+
+Lemma vsum_move (l D : list V3) t : length D = length l -> vsum Rops (move_pos l t D) = v3add Rops (vsum Rops l) (v3scale Rops t (vsum Rops D)).
+Proof.
+  revert D. induction l as [|p l IH]; intros D Hl; destruct D as [|d D']; cbn [length] in Hl; try lia.
+  - cbn [move_pos]. apply v3_ext. intros j. unfold vsum. cbn [fold_right]. rewrite vget_add, vget_scale, !vget_zero. ring.
+  - cbn [move_pos]. rewrite !vsum_cons, IH by lia. apply v3_ext. intros j. rewrite ?vget_add, ?vget_scale, ?vget_add. ring.
+Qed.
+
+Lemma sub_move (l D : list V3) (cl cD : V3) t : length D = length l ->
+  map (fun p => v3sub Rops p (v3add Rops cl (v3scale Rops t cD))) (move_pos l t D)
+  = move_pos (map (fun p => v3sub Rops p cl) l) t (map (fun d => v3sub Rops d cD) D).
+Proof.
+  revert D. induction l as [|p l IH]; intros D Hl; destruct D as [|d D']; cbn [length] in Hl; try lia; [reflexivity|].
+  cbn [move_pos map]. rewrite IH by lia. f_equal.
+  apply v3_ext. intros j. rewrite ?vget_sub, ?vget_add, ?vget_scale, ?vget_sub. ring.
+Qed.
+
+Lemma ofnat_pos (n : nat) : (0 < n)%nat -> 0 < ofnat Rops n.
+Proof. intros H. unfold ofnat. cbn [nofZ Rops]. apply IZR_lt. lia. Qed.
+
+Lemma centred_move (l D : list V3) t : length D = length l -> l <> [] ->
+  centred Rops (move_pos l t D) = move_pos (centred Rops l) t (centred Rops D).
+Proof.
+  intros Hl Hne. unfold centred. rewrite move_pos_length, Hl, vsum_move by exact Hl.
+  assert (Hn : ofnat Rops (length l) <> 0) by (apply Rgt_not_eq, ofnat_pos; destruct l; [contradiction|cbn; lia]).
+  rewrite <- (sub_move l D _ _ t Hl). apply map_ext. intros p. f_equal.
+  apply v3_ext. intros j. rewrite ?vget_div, ?vget_add, ?vget_scale, ?vget_div. field. exact Hn.
+Qed.
+
+Lemma vsum_centred (l : list V3) : l <> [] -> vsum Rops (centred Rops l) = vzero Rops.
+Proof.
+  intros Hne. unfold centred. apply v3_ext. intros j. rewrite vget_vsum, map_map, vget_zero.
+  rewrite (tsum_ext _ (fun p => vget j p + - vget j (vdiv Rops (vsum Rops l) (ofnat Rops (length l))))) by (intros p _; rewrite vget_sub; ring).
+  rewrite tsum_plus, tsum_const. rewrite vget_div, vget_vsum.
+  assert (Hn : ofnat Rops (length l) <> 0) by (apply Rgt_not_eq, ofnat_pos; destruct l; [contradiction|cbn; lia]).
+  unfold ofnat, rnat in *. cbn [nofZ Rops] in *. field. exact Hn.
+Qed.
+
+Lemma centred_length (l : list V3) : length (centred Rops l) = length l.
+Proof. unfold centred. apply map_length. Qed.
+
+Lemma rdev_move (q : Q4) (Y E Rf : list V3) t : length E = length Y -> length Rf = length Y ->
+  rdev Rops q (combine (move_pos Y t E) Rf) = move_pos (rdev Rops q (combine Y Rf)) t (map (qrot Rops q) E).
+Proof.
+  revert E Rf. induction Y as [|y Y IH]; intros E Rf H1 H2; destruct E as [|e E'], Rf as [|r Rf']; cbn [length] in *; try lia; [reflexivity|].
+  cbn [move_pos combine rdev map fst snd]. unfold rdev in IH. rewrite IH by lia. f_equal.
+  rewrite qrot_lin. apply v3_ext. intros j. rewrite ?vget_sub, ?vget_add, ?vget_scale, ?vget_sub. ring.
+Qed.
+Lemma rdev_length (q : Q4) (Y Rf : list V3) : length Rf = length Y -> length (rdev Rops q (combine Y Rf)) = length Y.
+Proof. intros H. unfold rdev. rewrite map_length, combine_length, H, Nat.min_id. reflexivity. Qed.
+
+Lemma vsum_rdev (q : Q4) (Y Rf : list V3) : length Rf = length Y ->
+  vsum Rops (rdev Rops q (combine Y Rf)) = v3sub Rops (qrot Rops q (vsum Rops Y)) (vsum Rops Rf).
+Proof.
+  revert Rf. induction Y as [|y Y IH]; intros Rf H; destruct Rf as [|r Rf']; cbn [length] in H; try lia.
+  - cbn [combine rdev map]. unfold vsum. cbn [fold_right]. rewrite qrot_zero. apply v3_ext. intros j. rewrite vget_sub, vget_zero. ring.
+  - cbn [combine rdev map fst snd]. unfold rdev in IH. rewrite !vsum_cons, IH by lia.
+    replace (v3add Rops y (vsum Rops Y)) with (v3add Rops y (v3scale Rops 1 (vsum Rops Y))) by (apply v3_ext; intros j; rewrite !vget_add, vget_scale; ring).
+    rewrite qrot_lin. apply v3_ext. intros j. rewrite ?vget_add, ?vget_sub, ?vget_add, ?vget_scale. ring.
+Qed.
+
+Lemma dot_list_rot_centred (q : Q4) (dev D : list V3) (c : V3) : length D = length dev ->
+  dot_list dev (map (qrot Rops q) (map (fun d => v3sub Rops d c) D)) = dot_list dev (map (qrot Rops q) D) - v3dot Rops (vsum Rops dev) (qrot Rops q c).
+Proof.
+  revert D. induction dev as [|g dev IH]; intros D Hl; destruct D as [|d D']; cbn [length] in Hl; try lia.
+  - cbn [map dot_list]. unfold vsum. cbn [fold_right]. rewrite v3dot_get, !vget_zero. ring.
+  - cbn [map dot_list]. rewrite IH by lia. rewrite vsum_cons, qrot_sub. rewrite !v3dot_get, ?vget_sub, ?vget_add. ring.
+Qed.
+
+Lemma dot_list_rot_adj (q : Q4) c (dev D : list V3) :
+  dot_list (map (fun d => qrot Rops (qconj Rops q) (v3scale Rops c d)) dev) D = c * dot_list dev (map (qrot Rops q) D).
+Proof.
+  revert D. induction dev as [|g dev IH]; intros D; destruct D as [|d D']; cbn [map dot_list]; try ring.
+  rewrite IH, qrot_adj, v3dot_scale_l. ring.
+Qed.
+
+Lemma dir_correct_rmsd ref qopt (gs : list GD) : length gs = 1%nat -> qopt_ok ref qopt ->
+  gd_pos (gnth gs 0) <> [] -> length ref = length (gd_pos (gnth gs 0)) ->
+  fst (k_rmsd Rops ref qopt gs) <> 0 ->
+  (* the minimum rmsd is differentiable along straight atomic displacements (non-degenerate optimal rotation) *)
+  (forall Ds, ex_derive (fun t => fst (k_rmsd Rops ref qopt (move_gs gs t Ds))) 0) ->
+  dir_correct (k_rmsd Rops ref qopt) gs.
+Proof.
+  intros Hl Hopt Hne Hlen Hx Hdiff. pose proof (gds_1 gs Hl) as Egs.
+  set (l := gd_pos (gnth gs 0)) in *.
+  set (n := ofnat Rops (length l)) in *.
+  assert (Hn : 0 < n) by (apply ofnat_pos; destruct l; [contradiction|cbn; lia]).
+  set (Y := centred Rops l). set (Rf := centred Rops ref).
+  assert (HRY : length Rf = length Y) by (unfold Rf, Y; rewrite !centred_length; exact Hlen).
+  set (q0 := qopt (combine Y Rf)). set (dev0 := rdev Rops q0 (combine Y Rf)).
+  assert (Hdl : length dev0 = length l) by (unfold dev0; rewrite rdev_length by exact HRY; unfold Y; apply centred_length).
+  set (x0 := sqrt (tsum Rops (map (v3norm2 Rops) dev0) / n)).
+  assert (Ex : fst (k_rmsd Rops ref qopt gs) = x0) by reflexivity.
+  assert (Hpos : 0 < tsum Rops (map (v3norm2 Rops) dev0) / n).
+  { destruct (Rlt_dec 0 (tsum Rops (map (v3norm2 Rops) dev0) / n)) as [H|H]; [exact H|]. exfalso. apply Hx. rewrite Ex. unfold x0. apply sqrt_neg_0. lra. }
+  assert (Hx0 : 0 < x0) by (unfold x0; apply sqrt_lt_R0; exact Hpos).
+  split.
+  - unfold k_rmsd. cbv zeta. cbn [snd]. set (g0 := gnth gs 0) in *. rewrite Egs. cbn [shape_ok]. split; [|exact I].
+    rewrite map_length. fold l Y Rf q0. fold dev0. rewrite Hdl. unfold l, gd_pos. apply map_length.
+  - intros Ds Hs. pose proof (shape_ok_nth Ds gs 0 Hs ltac:(lia)) as H0.
+    set (D := nth 0 Ds []) in *.
+    assert (HD : length D = length l) by (unfold l, gd_pos; rewrite map_length; exact H0).
+    set (E := centred Rops D).
+    assert (HE : length E = length Y) by (unfold E, Y; rewrite !centred_length; exact HD).
+    set (RE := map (qrot Rops q0) E).
+    (* the value with the rotation frozen at q0 *)
+    set (G := fun t => sqrt (tsum Rops (map (v3norm2 Rops) (move_pos dev0 t RE)) / n)).
+    assert (Eprs : forall t, combine (centred Rops (gd_pos (gnth (move_gs gs t Ds) 0))) (centred Rops ref) = combine (move_pos Y t E) Rf).
+    { intros t. rewrite gnth_move, gd_pos_move. fold l D. rewrite (centred_move l D t HD Hne). reflexivity. }
+    assert (EF : forall t, fst (k_rmsd Rops ref qopt (move_gs gs t Ds)) =
+                           sqrt (sqdev (qopt (combine (move_pos Y t E) Rf)) (combine (move_pos Y t E) Rf) / n)).
+    { intros t. unfold k_rmsd. cbv zeta. cbn [fst]. rewrite Eprs. rewrite gnth_move, gd_pos_move. fold l D.
+      rewrite move_pos_length. reflexivity. }
+    assert (EG : forall t, G t = sqrt (sqdev q0 (combine (move_pos Y t E) Rf) / n)).
+    { intros t. unfold G, sqdev. rewrite (rdev_move q0 Y E Rf t HE HRY). reflexivity. }
+    (* derivative of G *)
+    assert (HG : is_derive G 0 (dot_list dev0 RE / (n * x0))).
+    { unfold G. evar_last.
+      - apply (is_derive_sqrt (fun t => tsum Rops (map (v3norm2 Rops) (move_pos dev0 t RE)) / n) 0 (/ n * (2 * dot_list dev0 RE))).
+        + apply (is_derive_ext (fun t => / n * tsum Rops (map (v3norm2 Rops) (move_pos dev0 t RE)))); [intros t; unfold Rdiv; apply Rmult_comm|].
+          apply is_derive_scal. apply sumsq_dir.
+        + rewrite move_pos_zero. exact Hpos.
+      - rewrite move_pos_zero. fold x0. field. split; lra. }
+    (* the model's gradient contracted with the directions *)
+    unfold k_rmsd. cbv zeta. cbn [snd]. rewrite dot_lists_1. fold l Y Rf q0. fold dev0. fold n. fold D.
+    cbn [nsqrt ndiv nmul nltb Rops]. unfold zero, hf, nhalf, tw, ofnat. cbn [n0 n1 ndiv nofZ Rops]. change (IZR (Z.of_nat 2)) with 2. change (IZR 2) with 2.
+    fold n. fold x0.
+    replace (Rltb 0 x0) with true by (symmetry; apply Rltb_true; exact Hx0).
+    rewrite dot_list_rot_adj.
+    assert (Hsum0 : vsum Rops dev0 = vzero Rops).
+    { unfold dev0. rewrite vsum_rdev by exact HRY. unfold Y, Rf. rewrite !vsum_centred; [|destruct ref; [cbn in Hlen; destruct l; [contradiction|discriminate]|discriminate]|exact Hne].
+      rewrite qrot_zero. apply v3_ext. intros j. rewrite vget_sub, vget_zero. ring. }
+    assert (ERE : dot_list dev0 RE = dot_list dev0 (map (qrot Rops q0) D)).
+    { unfold RE, E, centred. rewrite (dot_list_rot_centred q0 dev0 D _) by (rewrite HD, Hdl; reflexivity).
+      rewrite Hsum0, v3dot_get, !vget_zero. ring. }
+    apply (envelope (fun t => fst (k_rmsd Rops ref qopt (move_gs gs t Ds))) G 0).
+    + apply Hdiff.
+    + intros t. rewrite EF, EG. apply sqrt_le_1_alt. apply Rmult_le_compat_r; [apply Rlt_le, Rinv_0_lt_compat; exact Hn|].
+      destruct (Hopt (move_pos Y t E)) as [_ Hmin]. apply Hmin. unfold q0. apply (Hopt Y).
+    + rewrite EF, EG. rewrite move_pos_zero. reflexivity.
+    + evar_last; [exact HG|]. rewrite <- ERE. field. split; lra.
+Qed.
+
 (* ------------------------------------------------------------------ more components as functions of the atomic coordinates *)
 Lemma grp_ok_3 (s : SYS) g1 g2 g3 : grp_ok s g1 -> grp_ok s g2 -> grp_ok s g3 ->
   List.Forall (wf_group s) [g1; g2; g3] /\ gds_wf (map (gdata_of Rops s) [g1; g2; g3]) 3 /\ List.Forall fit_on [g1; g2; g3].
@@ -2500,6 +2702,26 @@ Proof.
   - apply fit_ok_on. repeat constructor; assumption.
 Qed.
 
+(* rmsd with its default fit: the component centres and rotates its own atoms with the optimal rotation and applies
+   rot^-1 (F grad); neither the centre term nor the derivative of the rotation is computed.  Under the hypotheses that the
+   solver returns an optimal unit quaternion and that the minimum rmsd is differentiable at the configuration, this is
+   the exact gradient (the rotation derivative cancels by optimality). *)
+Definition plain_group (ids : list nat) : GRP := GAtoms ids None None false.
+Lemma cvc_grad_correct_rmsd cell co e ref qopt ids (s : SYS) :
+  ids_ok s ids -> ids <> [] -> length ref = length ids -> qopt_ok ref qopt ->
+  cvc_value Rops PI cell (mkCvc co e (KRmsd ref qopt) [plain_group ids]) s <> 0 ->
+  (forall Ds, ex_derive (fun t => fst (k_rmsd Rops ref qopt (move_gs [gdata_of Rops s (plain_group ids)] t Ds))) 0) ->
+  cvc_grad_correct cell (mkCvc co e (KRmsd ref qopt) [plain_group ids]) s.
+Proof.
+  intros Hok Hne Hlen Hopt Hv Hdiff.
+  apply group_layer; cbn [c_groups c_kind keval].
+  - constructor; [|constructor]. unfold plain_group, wf_group. cbn [fit_ids]. repeat split; try assumption. intros H; exfalso; apply H; reflexivity.
+  - cbn [map]. apply dir_correct_rmsd; try assumption; try reflexivity.
+    + unfold gnth. cbn [nth]. unfold gd_pos, plain_group. cbn [gdata_of gd_atoms]. rewrite map_map. destruct ids; [contradiction|discriminate].
+    + unfold gnth. cbn [nth]. unfold gd_pos, plain_group. cbn [gdata_of gd_atoms]. rewrite !map_length. exact Hlen.
+  - unfold plain_group. cbn [fit_ok fit_ok_g]. unfold cvc_eval. cbn [c_groups c_kind keval map k_rmsd snd fit_ok fit_ok_g]. auto.
+Qed.
+
 (* ------------------------------------------------------------------ closed form: guards instead of abstract hypotheses *)
 Definition com_of (s : SYS) (g : GRP) : V3 := gd_com Rops (gdata_of Rops s g).
 
@@ -2596,15 +2818,17 @@ Definition bias_guard (b : bias) (ws : list cvar) (x0 : list R) : Prop :=
   | BWalls k lk uk hl hu l => terms_ok fst l ws /\ walls_guard hl hu l x0
   | BMeta hs => forall h, In h hs -> hill_ok ws x0 h                         (* no hill exactly at its truncation radius *)
   | BAbmd k dec v ref => (v < length ws)%nat /\ abmd_diff Rops dec (xat Rops x0 v) ref <> 0   (* not exactly at the reference *)
+  | BHist k norm sigma grid vs => False        (* modelled and tied; force correctness not proved yet *)
   end.
 Lemma bias_guard_ok b ws x0 : bias_guard b ws x0 -> bias_force_correct b ws x0.
 Proof.
-  destruct b as [k cs|k lk uk hl hu l|k cs|hs|k dec v ref]; cbn [bias_guard].
+  destruct b as [k cs|k lk uk hl hu l|k cs|hs|k dec v ref|k norm sigma grid vs]; cbn [bias_guard].
   - apply bias_force_correct_harmonic_gen.
   - intros [H1 H2]. apply bias_force_correct_walls; assumption.
   - apply bias_force_correct_linear.
   - apply bias_force_correct_meta.
   - intros [H1 H2]. apply bias_force_correct_abmd; assumption.
+  - contradiction.
 Qed.
 
 Lemma forces_nth (cf : config) (s : SYS) a : (a < length s)%nat ->
@@ -2718,4 +2942,32 @@ Proof.
     + intros x [<-|[]]. exact Hj.
     + intros x [<-|[]]. exact Hj.
     + rewrite tsum_cons, tsum_nil. intros H. apply Mj. lra.
+Qed.
+
+(* qopt_ok is inhabited: with an all-zero reference every unit quaternion is optimal (rotations preserve norms) *)
+Lemma qrot_norm2 (q : Q4) (v : V3) : v3norm2 Rops (qrot Rops q v) = qn2 q * qn2 q * v3norm2 Rops v.
+Proof.
+  destruct q as [[[q0 q1] q2] q3], v as [[x y] z].
+  unfold qrot, qn2, v3norm2, v3dot, tw, ofnat. cbn [nadd nsub nmul nofZ Rops]. change (IZR (Z.of_nat 2)) with 2. ring.
+Qed.
+Lemma sqdev_zero_ref (q : Q4) (Y Z : list V3) : (forall r, In r Z -> r = vzero Rops) ->
+  sqdev q (combine Y Z) = qn2 q * qn2 q * tsum Rops (map (fun yr => v3norm2 Rops (fst yr)) (combine Y Z)).
+Proof.
+  unfold sqdev, rdev. revert Z. induction Y as [|y Y IH]; intros Z HZ; destruct Z as [|r Z']; cbn [combine map]; rewrite ?tsum_nil; try ring.
+  rewrite !tsum_cons, IH by (intros r0 Hr; apply HZ; right; exact Hr). cbn [fst snd].
+  rewrite (HZ r (or_introl eq_refl)).
+  replace (v3sub Rops (qrot Rops q y) (vzero Rops)) with (qrot Rops q y) by (apply v3_ext; intros j; rewrite vget_sub, vget_zero; ring).
+  rewrite qrot_norm2. ring.
+Qed.
+Lemma ex_qopt : qopt_ok [vzero Rops; vzero Rops; vzero Rops] (fun _ => (1, 0, 0, 0)).
+Proof.
+  intros Y prs.
+  assert (HZ : forall r, In r (centred Rops [vzero Rops; vzero Rops; vzero Rops]) -> r = vzero Rops).
+  { intros r Hr. unfold centred in Hr. cbn [map length] in Hr.
+    assert (E : v3sub Rops (vzero Rops) (vdiv Rops (vsum Rops [vzero Rops; vzero Rops; vzero Rops]) (ofnat Rops 3)) = vzero Rops).
+    { apply v3_ext. intros j. rewrite vget_sub, vget_div, vget_vsum. cbn [map]. rewrite !tsum_cons, tsum_nil, !vget_zero.
+      unfold ofnat. cbn [nofZ Rops]. change (IZR (Z.of_nat 3)) with 3. field. }
+    rewrite E in Hr. destruct Hr as [<-|[<-|[<-|[]]]]; reflexivity. }
+  split; [cbn; ring|]. intros q' Hq'. unfold prs. rewrite !sqdev_zero_ref by exact HZ. rewrite Hq'. cbn [qn2]. 
+  replace (1 * 1 + 0 * 0 + 0 * 0 + 0 * 0) with 1 by ring. lra.
 Qed.
